@@ -169,6 +169,27 @@ class Invert(_Base):
         return out
 
 
+class LinFailSome(_Base):
+    """Learns the right direction only if every *marker* row (decoys, always part of a fit call) was among the
+    rows it was fitted on; otherwise it learns the wrong sign, no target passes and mokapot's Model.fit gives up ("Model
+    performs worse after training").  The folds that hold a marker out therefore fail to train, the others train."""
+
+    def __init__(self, log="default", w=1.0, eps=1e-3, feat=0, markers=()):
+        super().__init__(log=log, w=w, eps=eps, feat=feat)
+        self.markers = markers
+
+    def fit(self, X, y):
+        super().fit(X, y)
+        rids = set(np.asarray(X)[:, -1].astype(np.int64).tolist())
+        self.sign_ = 1.0 if set(self.markers) <= rids else -1.0
+        return self
+
+    def decision_function(self, X):
+        out = self.__dict__.get("sign_", 1.0) * self._raw(X)
+        _emit(self.log, (self._token(), "predict", np.asarray(X)[:, -1].astype(np.int64).copy(), out.copy()))
+        return out
+
+
 class Memo(_Base):
     """The strongest memoriser: remembers the label of every training row; unseen rows
     get a weak score from the informative feature."""
